@@ -477,7 +477,7 @@ func (ex *Exec) exitNormal(st *State, results []Val) {
 	con := run.con
 	run.exits++
 	env := ex.exitEnv(st, results)
-	if run.exits <= 3 {
+	if run.exits <= 10 {
 		o := ex.newObl(st, "vacuity", "exit_reachable", "false", "some return path is feasible", con.Props)
 		o.Canary = true
 	}
